@@ -348,6 +348,17 @@ def random_case(rng, cid, size):
             'lkmem': size != 'large' or rng.random() < 0.3, 'merge': True, 'src': 'random-' + size}
 
 
+def rollover_case(rng, cid, n=4200):
+    """ONE hint file with more than 4096 items and an index entry for every item: the sparse index buffer fills a whole
+    row (4096 entries) and starts the next one"""
+    hs = sorted(rng.sample(range(1, 1 << 40), n))
+    st = [{'h': hx(h << 20), 'k': 'k%05d' % i, 'c': 0, 'o': 256 * (i + 1), 'v': 1 + i % 5, 'vh': i % 65536, 'z': 256} for i, h in enumerate(hs)]
+    rng.shuffle(st)
+    files = [{'chunk': 3, 'set': st}]
+    return {'id': cid, 'interval': 280, 'files': files, 'absent': absent_for(rng, files), 'idxlk': True, 'lkmem': False, 'merge': True,
+            'src': 'rollover'}
+
+
 def gen_cases(tier, seed, work, log):
     rng = random.Random(seed * 7919 + (1 if tier == 'quick' else 2))
     abstract = gen_tlc_cases(work, tier, log)
@@ -365,6 +376,8 @@ def gen_cases(tier, seed, work, log):
         for _ in range(plan[size]):
             cases.append(random_case(rng, 'r%d' % i, size))
             i += 1
+    for j in range(1 if tier == 'quick' else 3):
+        cases.append(rollover_case(rng, 'ro%d' % j, 4200 + 500 * j))
     fixed = os.path.join(V.VERIF, 'scenarios', 'fixed', 'C14')
     if os.path.isdir(fixed):
         for f in sorted(os.listdir(fixed)):
